@@ -309,6 +309,25 @@ def run_case(c):
                       '%s: %s escaped: %s' % (what, type(e).__name__, e), one)
         return res
     ok = True
+    # the short form (full_output=False) must report every row as well
+    try:
+        np.random.seed(1)
+        with warnings.catch_warnings():
+            warnings.simplefilter('ignore')
+            bs_s, fx_s = ui.process_beads_table(ui.read_table(wb, 'Beads', 'ID'), inst, base_dir=d, verbose=False, plot=False, full_output=False)
+        ids = [r['id'] for r in rows]
+        if list(bs_s.keys()) != ids or list(fx_s.keys()) != ids:
+            res.violation('beads:keys-short-form', '%s: process_beads_table(full_output=False) keys samples by %s and transformation functions by %s' % (
+                what, list(bs_s.keys()), list(fx_s.keys())), one)
+            return res
+        for r, f in zip(rows, faults):
+            if (f != 'ok') != (fx_s[r['id']] is None) or (f != 'ok') != isinstance(bs_s[r['id']], ui.ExcelUIException):
+                res.violation('beads:short-form-row:%s' % f, '%s: process_beads_table(full_output=False) row %s (%s): sample %s, function %s' % (
+                    what, r['id'], f, type(bs_s[r['id']]).__name__, type(fx_s[r['id']]).__name__), one)
+                return res
+    except Exception as e:
+        res.violation('beads:batch-aborted-short-form:%s' % type(e).__name__, '%s: process_beads_table(full_output=False): %s escaped: %s' % (what, type(e).__name__, e), one)
+        return res
     if list(bs.keys()) != [r['id'] for r in rows] or list(fx.keys()) != [r['id'] for r in rows]:
         res.violation('beads:keys', '%s: results are keyed %s' % (what, list(bs.keys())), one)
         return res
